@@ -64,8 +64,8 @@ add('C08', 'E1', 'exploration',
     'DESIGN.md section 5/C08')
 add('C09', 'E2+E3', 'model_checking',
     'explicit-state BFS over operation histories of the real objects (exact-digest quotient) + stateless pre-emption-bounded exploration of real threads under a sys.monitoring baton scheduler; oracle = bit-identity with fresh-interpreter references',
-    'The property quantifies over histories and schedules. Histories: every sequence of {construct (own/shared generator), call, set n/order/method, restore, clear cache, warm cache} over a 6-configuration pool on two live objects is explored breadth-first to the stated depth on the exact-digest quotient of all library objects and module-level containers; every call is compared bit for bit with a fresh interpreter doing only that call. Schedules: every interleaving of 2 (3) real threads with <= 1 (2) pre-emptions at every executed library line (instruction granularity with 1 pre-emption in the thorough tier) is executed under a cooperative scheduler; per-thread observations and the final rule cache are compared with the references. Replays of schedule prefixes must be identical (ownership of nondeterminism is checked).',
-    'history depth 3 (quick) / 5 (thorough); at most 3 threads and 2 pre-emptions; cooperative scheduling does not model parallelism inside numpy C code; a free-running 16-thread pass is auxiliary evidence only.',
+    'The property quantifies over histories and schedules. Histories: every sequence of {construct (own/shared generator), call, set n/order/method, restore, clear cache, warm cache} over a pool of 6 Derivative and 5 Hessdiag/Gradient/Hessian/Jacobian configurations on two live objects is explored breadth-first to the stated depth (plus long single-object histories with in-place updated array arguments and calls aborted by an exception of the user function) on the exact-digest quotient of all library objects and module-level containers; every call is compared bit for bit with a fresh interpreter doing only that call. Schedules: every interleaving of 2 (3) real threads with <= 1 (2) pre-emptions at every executed library line (instruction granularity with 1 pre-emption in the thorough tier) is executed under a cooperative scheduler; per-thread observations and the final rule cache are compared with the references. Replays of schedule prefixes must be identical (ownership of nondeterminism is checked). Re-entrancy: every compatible (outer, inner) pair of the pool with the inner object used inside the outer object\'s function; inner calls must equal the same calls made alone and the outer result must equal the outer object run on the recorded table of inner values.',
+    'history depth 3 (quick) / 4 (thorough) on two objects, 5 / 7 on one object; at most 3 threads and 2 pre-emptions; cooperative scheduling does not model parallelism inside numpy C code; a free-running 16-thread pass is auxiliary evidence only.',
     'DESIGN.md section 5/C09')
 add('C11', 'E1', 'exploration',
     'bounded-exhaustive enumeration of the misuse menu (classes x complex-step methods x complex x / complex f x dimensions, wrong result counts, multicomplex n>2, too few steps for every (method, n, order), size mismatches, unknown paths) on the real API; oracle = the call raises ValueError',
@@ -74,13 +74,13 @@ add('C11', 'E1', 'exploration',
     'DESIGN.md section 5/C11')
 add('C15', 'E1', 'exploration',
     'bounded-exhaustive enumeration of node families, all permutations of small node sets, expansion points and orders on the real fd_weights_all; exact Lagrange-derivative weights in rational arithmetic',
-    'All node families of sizes 2..14, all permutations up to size 5 (6-7 thorough), five expansion points and every n < len(x) are pushed through the real fd_weights_all/fd_weights and compared entrywise with weights computed by multiplying out the Lagrange basis polynomials in exact rationals (not Fornberg recursion), with a cancellation-free conditioning scale per entry.',
+    'All node families of sizes 2..14 (plus three scale families: offsets of 1e-10, spacing 400, nearly symmetric stencils), all permutations up to size 5 (6-7 thorough), five expansion points and every n < len(x) are pushed through the real fd_weights_all/fd_weights and compared entrywise with weights computed by multiplying out the Lagrange basis polynomials in exact rationals (not Fornberg recursion), with a cancellation-free conditioning scale per entry.',
     'allowance 100 eps S_kj with S the cancellation-free magnitude of the same weight (derived bound ~10 m u S); node sets from fixed families.',
     'DESIGN.md section 5/C15')
 add('C16', 'E1', 'exploration',
     'bounded-exhaustive enumeration of (n, m, grid length, grid kind, direction, monomial degree, centre) on the real fd_derivative; exact polynomial derivatives at every grid point',
     'Every cell of the product is executed and every grid point (all boundary points at both ends, first/last interior point) is compared with the exact derivative of the monomial computed in rationals on the float grid, with the exact stencil weights providing the conditioning scale.',
-    'grids from four deterministic families (plus integer grids); allowance 100 eps sum S_j |f_j| over the documented stencil.',
+    'grids from four deterministic families (plus integer grids, and three families scaled by 4096 / 2^-30); allowance 100 eps sum S_j |f_j| over the documented stencil.',
     'DESIGN.md section 5/C16')
 add('C17', 'E1+E2', 'exploration',
     'bounded-exhaustive enumeration of (function, z0, n, initial radius, step_ratio, num_extrap) on the real taylor/derivative with exact complex jets; deviation-bounded enumeration of scripted environment answers replayed against the real Taylor.__call__ and a reference model of the radius-search protocol',
